@@ -197,50 +197,6 @@ mod proofs {
         bitvec_read_case::<5>();
     }
 
-    // ------------------------------------------------------------------ decoded values stay usable (C10.3)
-
-    /// Every duration the decoder ACCEPTS can be re-encoded (`build`), which is what `Signed::verify` does to compute the
-    /// message hash of a received announcement: no panic in `Duration::build` for any decoded value.
-    #[kani::proof]
-    #[kani::stub(std::backtrace::Backtrace::capture, std::backtrace::Backtrace::disabled)]
-    fn duration_read_then_build_total() {
-        let t = pstd::Duration { seconds: kani::any(), nanos: kani::any() };
-        if let Ok(d) = <time::Duration as ProtoFmt>::read(&t) {
-            kani::cover!(d.whole_seconds() == i64::MIN, "reach: decoded duration at the lower end");
-            let b = d.build();
-            std::mem::forget(b);
-        }
-    }
-
-    /// The same for timestamps (`time::Utc`, carried in every `NetAddress`).
-    #[kani::proof]
-    #[kani::stub(std::backtrace::Backtrace::capture, std::backtrace::Backtrace::disabled)]
-    fn utc_read_then_build_total() {
-        let t = pstd::Timestamp { seconds: kani::any(), nanos: kani::any() };
-        if let Ok(u) = <time::Utc as ProtoFmt>::read(&t) {
-            let b = u.build();
-            std::mem::forget(b);
-        }
-    }
-
-    /// Every timestamp the decoder accepts can be rendered (`Display`), which the debug page does with the timestamp of
-    /// every stored validator announcement: no panic in `<Utc as Display>::fmt` for any decoded value.
-    #[kani::proof]
-    #[kani::unwind(24)]
-    #[kani::stub(std::backtrace::Backtrace::capture, std::backtrace::Backtrace::disabled)]
-    fn utc_read_then_display_total() {
-        struct Sink;
-        impl core::fmt::Write for Sink {
-            fn write_str(&mut self, _: &str) -> core::fmt::Result {
-                Ok(())
-            }
-        }
-        let t = pstd::Timestamp { seconds: kani::any(), nanos: kani::any() };
-        if let Ok(u) = <time::Utc as ProtoFmt>::read(&t) {
-            let _ = core::fmt::write(&mut Sink, format_args!("{}", u));
-        }
-    }
-
     // ------------------------------------------------------------------ round trips (C09)
 
     #[kani::proof]
